@@ -98,15 +98,17 @@ def block_cfg(draw, kind):
 
 def step_for(draw, kind, cfg):
     if kind == 'input':
+        # falsy values (None, 0, False, '') are states like any other
         return draw(st.sampled_from([['put', 1], ['put', 2], ['put', 'v'], ['bogus', 0], ['noparam', 0],
-                                     ['put', 'boom']]))
+                                     ['put', 'boom'], ['put', None], ['put', None], ['put', 0], ['put', False],
+                                     ['put', '']]))
     if kind == 'counter':
         return draw(st.sampled_from([['inc', 1], ['dec', 1], ['put', 7], ['put', 2], ['bogus', 0], ['noparam', 0],
                                      ['put', 'boom']]))
     if kind == 'timer':
         return draw(st.sampled_from([['start', None], ['stop', None], ['toggle', None], ['start', 2.5], ['bogus', 0]]))
     if kind == 'inputexp':
-        return draw(st.sampled_from([['put', 1], ['put', 2], ['put_dur', 4], ['bogus', 0]]))
+        return draw(st.sampled_from([['put', 1], ['put', 2], ['put_dur', 4], ['bogus', 0], ['put', 0], ['put', '']]))
     if kind == 'fsm':
         ev = draw(st.sampled_from(cfg['desc']['events'] + ['bogus']))
         return [ev, draw(st.sampled_from([None, 1, 0]))]
